@@ -1,6 +1,8 @@
 SPECIFICATION Spec
 CONSTANTS
   Modes = {"WebRtc", "Srtp", "Rtp"}
+  Roles = {"offerer", "answerer"}
+  Cryptos = {"ok", "none", "suite", "key"}
   MaxLen = 6
   Ops = {"Push", "Raw", "InClearRtp", "InClearRtcp", "InForged", "InValid", "Keys", "Close", "InValidNack", "Gap", "KeyFrame", "Report"}
   Deviations = {}
